@@ -9,7 +9,7 @@ QUICK = ["seq2", "two_if", "catch_act", "msg_set", "par_block", "env_flow", "cat
 def main(tier, seed):
     c = Check("C11", tier, seed)
     jobs = []
-    names = QUICK if tier == "quick" else scen.flow_names()
+    names = QUICK if tier == "quick" else [n for n in scen.flow_names() if n != "auto"]   # auto finishes (and is removed) before the first quiescent point
     k = 1 if tier == "quick" else 2
     parts = 2 if tier == "quick" else 8
     for n in names:
